@@ -84,7 +84,8 @@ pub fn gen_c05(seed: u64, sub: &str, idx: u64) -> Scenario {
         cfg.subframe_coding.use_lpc = true;
         cfg.subframe_coding.qlpc.lpc_order = 24;
     }
-    cfg.block_size = block;
+    // the block-size argument is authoritative; the configuration's field sometimes differs
+    cfg.block_size = if rng.chance(1, 4) { *rng.pick(&[32usize, 64, 4096, 1000]) } else { block };
     let (workers, env) = if sub == "env" {
         let v = ["1", "2", "3", "7", "16", "64", "abc", "", "0", "99999999999999999999", " 4", "-1", "08"][(idx % 13) as usize];
         (None, Some(v.to_string()))
